@@ -5,6 +5,7 @@
 use std::{borrow::Cow, collections::BTreeMap};
 
 use ruma_common::{
+    room_version_rules::RedactionRules,
     serde::{from_raw_json_value, ignore_invalid_vec_items},
     space::SpaceRoomJoinRule,
     OwnedRoomId,
@@ -16,14 +17,19 @@ use serde::{
 };
 use serde_json::{value::RawValue as RawJsonValue, Value as JsonValue};
 
-use crate::{EmptyStateKey, PrivOwnedStr};
+use crate::{EmptyStateKey, PrivOwnedStr, RedactContent, RedactedStateEventContent};
 
 /// The content of an `m.room.join_rules` event.
 ///
 /// Describes how users are allowed to join the room.
 #[derive(Clone, Debug, Serialize, EventContent)]
 #[cfg_attr(not(ruma_unstable_exhaustive_types), non_exhaustive)]
-#[ruma_event(type = "m.room.join_rules", kind = State, state_key_type = EmptyStateKey)]
+#[ruma_event(
+    type = "m.room.join_rules",
+    kind = State,
+    state_key_type = EmptyStateKey,
+    custom_redacted
+)]
 pub struct RoomJoinRulesEventContent {
     /// The type of rules used for users wishing to join this room.
     #[ruma_event(skip_redaction)]
@@ -58,6 +64,25 @@ impl<'de> Deserialize<'de> for RoomJoinRulesEventContent {
         let join_rule = JoinRule::deserialize(deserializer)?;
         Ok(RoomJoinRulesEventContent { join_rule })
     }
+}
+
+impl RedactContent for RoomJoinRulesEventContent {
+    type Redacted = RedactedRoomJoinRulesEventContent;
+
+    fn redact(self, _rules: &RedactionRules) -> Self::Redacted {
+        // The join rule is kept.
+        self
+    }
+}
+
+/// Redacted form of [`RoomJoinRulesEventContent`].
+///
+/// The join rule is not redacted so this is the same type. A derived `Deserialize` implementation
+/// cannot be used for it because of the way `JoinRule` is deserialized.
+pub type RedactedRoomJoinRulesEventContent = RoomJoinRulesEventContent;
+
+impl RedactedStateEventContent for RedactedRoomJoinRulesEventContent {
+    type StateKey = EmptyStateKey;
 }
 
 impl RoomJoinRulesEvent {
